@@ -60,6 +60,10 @@ LISTABLE = [t for t in SCALARS if t not in ("stringlist", "dictlist", "dynamic",
 FNAMES = ["a", "b", "c", "d"]
 
 
+def WORKERS(tier):
+    return 8 if tier == "quick" else 16
+
+
 def EXHAUSTIVE(tier):
     return False
 
@@ -103,8 +107,27 @@ def _own_pool(r, t):
     return out
 
 
+def _unpre(spec):
+    """the raw candidate behind a pre-converted one (`["pre", type, spec]` = an instance of the field type made from spec)"""
+    while isinstance(spec, list) and spec and spec[0] == "pre":
+        spec = spec[2]
+    if isinstance(spec, list) and spec and spec[0] in ("list", "tuple"):
+        return [spec[0], [_unpre(x) for x in spec[1]]]
+    return spec
+
+
 def _build(spec):
     k = spec[0]
+    if k == "pre":
+        # an element / value that already IS an instance of the field type (taken from another record, a slice of a
+        # typed list, ...): the isinstance shortcuts of typedlist._convert and Record.__setattr__ keep it as it is.
+        # If the constructor refuses the candidate it stays raw.
+        raw = _build(spec[2])
+        try:
+            from flow.record.base import fieldtype
+            return fieldtype(spec[1])(raw)
+        except Exception:
+            return raw
     if k == "bytearray":
         return bytearray(bytes.fromhex(spec[1]))
     if k == "pathobj":
@@ -129,6 +152,17 @@ def _pool_for(r, t):
     if base == "record":
         return pool + [NONE, REC0] + ([["list", [REC0, NONE]], ["list", []]] if t.endswith("[]") else [])
     pool += WRONG
+    if t.endswith("[]") and base not in ("record",):
+        # mixed lists: head already converted (an instance of the element type), tail raw - valid, boundary and wrong
+        heads = [V.gen_value(r, base, none_chance=0) for _ in range(3)]
+        tails = [V.gen_value(r, base, none_chance=0) for _ in range(2)] + [w for w in WRONG if w[0] not in ("list", "tuple", "dict")
+                                                                           and not (base in ("path", "command") and w[0] == "str" and not V.is_text(dec_str(w[1])))]
+        for i, w in enumerate(tails):
+            pool.append(["list", [["pre", base, heads[i % 3]], w]])
+        pool.append(["list", [["pre", base, heads[0]], ["pre", base, heads[1]]]])
+        pool.append(["tuple", [["pre", base, heads[2]], heads[0], ["pre", base, heads[1]]]])
+    elif not t.endswith("[]") and base not in ("record", "dynamic", "stringlist", "dictlist", "net.ipv4.Subnet"):
+        pool += [["pre", base, V.gen_value(r, base, none_chance=0)] for _ in range(2)]
     if base == "digest":
         pool = [p for p in pool if not (p[0] == "dict" and any(dec_str(kk[1]) in ("md5", "sha1", "sha256") for kk, _ in p[1] if kk[0] == "str"))]
     if base == "bytes":
@@ -145,6 +179,8 @@ def gen_cases(rng, tier):
     for t in SCALARS + [x + "[]" for x in LISTABLE]:
         r = rng.fork("pool-" + t)
         for spec in _pool_for(r, t):
+            if spec[0] == "pre":       # T(instance of T) is not the isinstance shortcut of __setattr__: histories only
+                continue
             cases.append({"kind": "coerce", "type": t, "value": spec})
     # --- fixed histories
     cases.append({"kind": "seq", "fields": [["boolean", "a"], ["uint16", "b"]], "args": [["bool", 1], I(5)],
@@ -325,6 +361,7 @@ def _num_of(spec):
 
 def _check_value(t, spec, o):
     """accepted input `spec` stored as observation `o` in a field of (scalar) type t: is it representable / converted?"""
+    spec = _unpre(spec)
     if o == ["none"]:
         return None
     if t in ("uint16", "net.tcp.Port", "net.udp.Port", "uint32"):
@@ -354,6 +391,16 @@ def _check_value(t, spec, o):
     if t in ("net.ipaddress", "net.IPAddress") and o[0] == "ip":
         if not (0 <= int(o[3]) < (2 ** 32 if o[2] == 4 else 2 ** 128)):
             return "address out of range"
+    if t in ("net.ipaddress", "net.IPAddress", "net.ipnetwork", "net.IPNetwork") and spec[0] not in ("rec", "pathobj"):
+        # "malformed address ... is rejected": well-formed = what the standard library's parser accepts (the
+        # reference is evaluated here, independently of the field type and of anything it may have cached)
+        try:
+            x = _build(spec)
+            (_ipm.ip_address if "address" in t.lower() else _ipm.ip_network)(x)
+        except (ValueError, TypeError) as e:
+            return f"{t} accepted {json.dumps(spec)[:60]}, which is not a well-formed {'address' if 'address' in t.lower() else 'network'} ({type(e).__name__})"
+        except Exception:
+            pass
     if t == "datetime" and o[0] == "dt":
         if o[3] is None:
             return "datetime field holds a naive datetime"
@@ -398,7 +445,7 @@ def oracle(case, obs):
                 return f"{t} list holds an element that is not of the element type"
             base = t[:-2]
             o = obs["value"]
-            els = case["value"][1] if case["value"][0] in ("list", "tuple") else None
+            els = _unpre(case["value"])[1] if case["value"][0] in ("list", "tuple") else None
             if els is not None and o[0] == "list" and len(o[2]) == len(els):
                 for e_spec, e_obs in zip(els, o[2]):
                     f = _check_value(base, e_spec, e_obs)
@@ -464,6 +511,7 @@ def oracle(case, obs):
 
 
 def _check_scalar_or_list(t, spec, o):
+    spec = _unpre(spec)
     if t.endswith("[]"):
         if o[0] == "list" and spec[0] in ("list", "tuple") and len(o[2]) == len(spec[1]):
             for e_spec, e_obs in zip(spec[1], o[2]):
@@ -705,14 +753,19 @@ def _strip_tok(i):
     return i
 
 
+def _braw(spec):
+    """model input: the raw candidate (a pre-converted instance carries exactly what its constructor made of it)"""
+    return _build(_unpre(spec))
+
+
 def model_op(case, obs):
     toks = Toks()
     if case["kind"] == "coerce":
-        return {"op": "c05_coerce", "type": case["type"], "inp": to_inp(_build(case["value"]), toks)}
+        return {"op": "c05_coerce", "type": case["type"], "inp": to_inp(_braw(case["value"]), toks)}
     return {"op": "c05_seq", "types": [[enc_str(fn), t] for t, fn in case["fields"]],
-            "args": [to_inp(_build(a), toks) for a in case["args"]],
-            "ops": [["assign", enc_str(op[1]), to_inp(_build(op[2]), toks)] if op[0] == "assign" else
-                    ["replace", [[enc_str(kk), to_inp(_build(v), toks)] for kk, v in op[1]]] for op in case["ops"]]}
+            "args": [to_inp(_braw(a), toks) for a in case["args"]],
+            "ops": [["assign", enc_str(op[1]), to_inp(_braw(op[2]), toks)] if op[0] == "assign" else
+                    ["replace", [[enc_str(kk), to_inp(_braw(v), toks)] for kk, v in op[1]]] for op in case["ops"]]}
 
 
 def _cmp_state(case, m_state, r_state, toks, inputs, what):
@@ -733,7 +786,7 @@ def compare(case, obs, m):
     toks = Toks()
     model_op(case, obs) if False else None
     if case["kind"] == "coerce":
-        x = _build(case["value"])
+        x = _braw(case["value"])
         to_inp(x, toks)
         if m["ok"] != ("error" not in obs):
             return f"{case['type']}({json.dumps(case['value'])[:60]}): model ok={m['ok']} ({m.get('err')}) vs implementation {obs.get('error', 'ok')}"
@@ -751,19 +804,19 @@ def compare(case, obs, m):
         return None
     # seq: rebuild the token table in the same order as model_op
     for a in case["args"]:
-        to_inp(_build(a), toks)
+        to_inp(_braw(a), toks)
     for op in case["ops"]:
         if op[0] == "assign":
-            to_inp(_build(op[2]), toks)
+            to_inp(_braw(op[2]), toks)
         else:
             for _, v in op[1]:
-                to_inp(_build(v), toks)
+                to_inp(_braw(v), toks)
     mc, rc = m["construct"], obs["construct"]
     if mc["ok"] != ("error" not in rc):
         return f"construct: model ok={mc['ok']} ({mc.get('err')}) vs implementation {rc.get('error', 'ok')}"
     if not mc["ok"]:
         return None if mc["err"] == rc["error"] else f"construct: model raises {mc['err']}, implementation {rc['error']}"
-    current = {fn: _build(a) for (t, fn), a in zip(case["fields"], case["args"])}
+    current = {fn: _braw(a) for (t, fn), a in zip(case["fields"], case["args"])}
     d = _cmp_state(case, mc["state"], rc["state"], toks, current, "after construction")
     if d:
         return d
@@ -777,10 +830,10 @@ def compare(case, obs, m):
             return f"{what}: model raises {ms['err']}, implementation {rs['error']}"
         if ms["ok"]:
             if op[0] == "assign":
-                current[op[1]] = _build(op[2])
+                current[op[1]] = _braw(op[2])
             else:
                 for kk, v in op[1]:
-                    current[kk] = _build(v)
+                    current[kk] = _braw(v)
         d = _cmp_state(case, ms["state"], rs["state"], toks, current, "after " + what)
         if d:
             return d
